@@ -102,6 +102,31 @@ Definition ref_find (a : rarchive) (name : list N) : option (list N) :=
   | None => None
   end.
 
+(* diagnosis for the correspondence check: is the sector offset table of a packed multi-sector file, decrypted as
+   the format prescribes (file key - 1), the table of a well-formed file?  None = not applicable *)
+Fixpoint nondecreasing (l : list N) : bool :=
+  match l with
+  | a :: ((b :: _) as r) => (a <=? b) && nondecreasing r
+  | _ => true
+  end.
+
+Definition ref_table_sane (a : rarchive) (name : list N) : option bool :=
+  match ref_find a name with
+  | Some [pos; csize; fsize; fl] =>
+    let enc := rflag fl R_ENCRYPTED in
+    let key := r_file_key name pos fsize (rflag fl R_FIX_KEY) in
+    let ssz := N.shiftl 512 (ra_shift a) in
+    let packed := rflag fl R_COMPRESS || rflag fl R_IMPLODE in
+    if rflag fl R_SINGLE_UNIT || negb packed || rflag fl 67108864 then None
+    else
+      let nsec := (fsize + ssz - 1) / ssz in
+      let tbl := rslice (ra_bytes a) pos (4 * (nsec + 1)) in
+      let tbl' := if enc then r_crypt false tbl ((key + 4294967295) mod 4294967296) else tbl in
+      let offs := words_of_bytes (N.to_nat (nsec + 1)) tbl' in
+      Some ((nth 0 offs 0 =? 4 * (nsec + 1)) && (nth (N.to_nat nsec) offs 0 =? csize) && nondecreasing offs)
+  | _ => None
+  end.
+
 Section RefCodec.
   (* decompression of one unit by its mask byte: supplied from outside (zlib / bzip2 of
      an independent implementation) *)
